@@ -41,6 +41,7 @@ func allChecks() []Check {
 			ID: "C01", Title: "Parsing is total: a tree or an error, never a crash, hang or half-built tree",
 			Runs: []HarnessRun{
 				{Harness: "VP_C01_bytes", Quick: map[string]int{"L": 3}, Thorough: map[string]int{"L": 4}, MustReach: []string{"C01/bytes/accepted", "C01/bytes/rejected"}, PanicLabel: "C01/bytes/no-panic"},
+				{Harness: "VP_C01_pool", Quick: map[string]int{}, MustReach: []string{"C01/bytes/accepted", "C01/bytes/rejected"}, PanicLabel: "C01/pool/no-panic", SampleEvery: 3},
 				{Harness: "VP_C01_lists", Quick: map[string]int{"K": 3}, Thorough: map[string]int{"K": 4}, MustReach: []string{"C01/lists/accepted", "C01/lists/rejected"}, PanicLabel: "C01/lists/no-panic"},
 				{Harness: "VP_C01_tokens", Quick: map[string]int{"K": 2}, Thorough: map[string]int{"K": 3}, MustReach: []string{"C01/tokens/accepted", "C01/tokens/rejected"}, PanicLabel: "C01/tokens/no-panic"},
 			},
@@ -59,6 +60,7 @@ func allChecks() []Check {
 				{Harness: "VP_C02_bytes", Quick: map[string]int{"L": 6, "ALPHA": 1}, Thorough: map[string]int{"L": 7, "ALPHA": 1}, MustReach: []string{"C02/bytes/invalid", "C02/bytes/derivable"}, PanicLabel: "C02/bytes/no-panic"},
 				{Harness: "VP_C02_bytes", Quick: map[string]int{"L": 2, "ALPHA": 0}, Thorough: map[string]int{"L": 3, "ALPHA": 0}, MustReach: []string{"C02/bytes/derivable", "C02/bytes/underivable"}, PanicLabel: "C02/bytes/no-panic"},
 				{Harness: "VP_C02_ops", Quick: map[string]int{"N": 1, "P": 1, "ALPHA": 0}, Thorough: map[string]int{"N": 2, "P": 1, "ALPHA": 0}, MustReach: []string{"C02/ops/derivable"}, PanicLabel: "C02/ops/no-panic"},
+				{Harness: "VP_C02_pool", Quick: map[string]int{}, MustReach: []string{"C02/bytes/derivable", "C02/bytes/underivable"}, PanicLabel: "C02/pool/no-panic", SampleEvery: 3},
 				{Harness: "VP_C02_lists", Quick: map[string]int{"K": 2}, Thorough: map[string]int{"K": 3}, MustReach: []string{"C02/lists/derivable", "C02/lists/underivable"}, PanicLabel: "C02/lists/no-panic"},
 				{Harness: "VP_C02_postfix", Quick: map[string]int{"K": 5, "CUT": 0}, Thorough: map[string]int{"K": 6, "CUT": 0}, MustReach: []string{"C02/postfix/derivable", "C02/postfix/underivable"}, PanicLabel: "C02/postfix/no-panic"},
 			},
@@ -137,9 +139,11 @@ func allChecks() []Check {
 			Runs: []HarnessRun{
 				{Harness: "VP_C06_truthiness", Quick: map[string]int{}, MustReach: []string{"C06/done"}, PanicLabel: "C06/no-panic", SampleEvery: 13},
 				{Harness: "VP_C06_effects", Quick: map[string]int{}, MustReach: []string{"C06/effects/done"}, PanicLabel: "C06/effects/no-panic", SampleEvery: 5},
+				{Harness: "VP_C06_text", Quick: map[string]int{}, MustReach: []string{"C06/text/done"}, PanicLabel: "C06/text/no-panic", SampleEvery: 3},
 				{Harness: "VP_C06_reeval", Quick: map[string]int{}, MustReach: []string{"C06/reeval/done"}, PanicLabel: "C06/reeval/no-panic", SampleEvery: 29},
 			},
 			Bounds: map[string]string{"truthiness": "condition value over {null, typed nil pointer, bool, finite number (symbolic, incl. 0 and -0), NaN, +-Inf, string of 0..2 symbolic bytes, arrays, map, time, func} x {!!x, !x, c?a:b with recording branches, &&, ||, ??, one nested form}",
+				"text":    "CONCRETE POOL (not symbolic): 25 formulas through the real parser whose condition is a computed value (prefix operators on numeric / non-numeric text, arithmetic that yields zero, toFloat of junk) or whose unselected arm would fail (malformed assignment target, missing function, failing assertion, out-of-range position)",
 				"effects": "&&, ||, ??, ?: (both arms), !! and a comma form through the real parser with the left operand / condition a recording host function that returns a different value on every call, over 8 first values: evaluated exactly once, the judged value handed back, the unselected arm not run",
 				"reeval":  "8 forms (this.c / c / this.m.c conditions, &&, ||, !!, typeof, ??) parsed once and evaluated against two data maps (8 x 8 values), on the same or a fresh runner: the second result follows the second map"},
 			Outside:     []string{"!x on strings / composites / typed nil pointers (statement covers booleans, numbers and null)"},
@@ -152,9 +156,11 @@ func allChecks() []Check {
 				{Harness: "VP_C07_sequencing", Quick: map[string]int{"W": 2}, MustReach: []string{"C07/sequencing/done"}, PanicLabel: "C07/sequencing/no-panic"},
 				{Harness: "VP_C07_builtins", Quick: map[string]int{}, MustReach: []string{"C07/builtins/done"}, PanicLabel: "C07/builtins/no-panic"},
 				{Harness: "VP_C07_operators", Quick: map[string]int{}, MustReach: []string{"C07/operators/done"}, PanicLabel: "C07/operators/no-panic", SampleEvery: 41},
+				{Harness: "VP_C07_spread", Quick: map[string]int{}, MustReach: []string{"C07/spread/done"}, PanicLabel: "C07/spread/no-panic", SampleEvery: 1},
 				{Harness: "VP_C07_rebind", Quick: map[string]int{}, MustReach: []string{"C07/rebind/done"}, PanicLabel: "C07/rebind/no-panic", SampleEvery: 5},
 			},
 			Bounds: map[string]string{"operators": "$a = num, (FORM), [$a, num] through the real parser for 12 two-operand shapes x 14 operators and 11 one-operand shapes over 5 concrete numbers (incl. 19 digits): local, later read and caller's number unchanged, also when FORM fails; write monitor",
+				"spread":     "CONCRETE POOL: 8 formulas in which a local is assigned in one argument of a (spread) call / array element and read in another: left-to-right order",
 				"rebind":     "4 successful assignments, then one of 7 assignments whose right-hand side fails, then a read in a third evaluation by the same runner: the earlier binding is still visible",
 				"sequencing": "L , R where L is an assignment wrapped in up to two of {parentheses, selected/unselected-side/condition of a conditional, array element, call argument, nested comma} with fillers that read locals, and R reads $a / [$a,$b] / $b = $a; value, call count and visibility in a later evaluation against the reference",
 				"builtins":   "$a = num, fn($a), fn(num), [$a, num] for each of 10 numeric builtins and a symbolic number (c < 1000, e in -2..0): the local and the caller's number still hold the original value; write monitor on the data map",
@@ -210,12 +216,14 @@ func allChecks() []Check {
 				{Harness: "VP_C17_slice", Quick: map[string]int{"S": 3}, Thorough: map[string]int{"S": 5}, MustReach: []string{"C17/slice/done"}, PanicLabel: "C17/slice/no-panic"},
 				{Harness: "VP_C17_pad", Quick: map[string]int{"S": 3}, Thorough: map[string]int{"S": 4}, MustReach: []string{"C17/pad/done"}, PanicLabel: "C17/pad/no-panic"},
 				{Harness: "VP_C17_transform", Quick: map[string]int{"S": 3}, Thorough: map[string]int{"S": 4}, MustReach: []string{"C17/transform/done"}, PanicLabel: "C17/transform/no-panic"},
+				{Harness: "VP_C17_case", Quick: map[string]int{}, MustReach: []string{"C17/case/done"}, PanicLabel: "C17/case/no-panic", SampleEvery: 1},
 				{Harness: "VP_C17_regexp", Quick: map[string]int{}, MustReach: []string{"C17/regexp/done"}, PanicLabel: "C17/regexp/no-panic", SampleEvery: 23},
 				{Harness: "VP_C17_lists", Quick: map[string]int{"S": 2}, Thorough: map[string]int{"S": 3}, MustReach: []string{"C17/lists/done"}, PanicLabel: "C17/lists/no-panic"},
 			},
-			Bounds: map[string]string{"regexp": "CONCRETE POOL (not symbolic): 30 patterns x 23 subjects through the runner against an independently computed table and against the regexp package called directly",
-				"all": "builtins fetched by name through the runner; strings of 0..S symbolic bytes (transform: ASCII), one symbolic pad byte, symbolic 64-bit positions assumed in range as the statement says; oracles are definitional loops and the algebraic laws"},
-			Outside:     []string{"regexp with a symbolic subject or pattern (cannot be encoded; a concrete pool is checked instead)", "lower/upper/trim on non-ASCII text", "replace with an empty search string", "panics on out-of-range positions are C03's subject (the harness recovers and judges returned values only)"},
+			Bounds: map[string]string{"case": "CONCRETE POOL (not symbolic): lower / upper on 13 texts outside ASCII (Latin-1, Greek, Cyrillic, a title-case digraph, CJK mixed with ASCII) against hand-written simple case mappings",
+				"regexp": "CONCRETE POOL (not symbolic): 30 patterns x 23 subjects through the runner against an independently computed table and against the regexp package called directly",
+				"all":    "builtins fetched by name through the runner; strings of 0..S symbolic bytes (transform: ASCII), one symbolic pad byte, symbolic 64-bit positions assumed in range as the statement says; oracles are definitional loops and the algebraic laws"},
+			Outside:     []string{"regexp with a symbolic subject or pattern (cannot be encoded; a concrete pool is checked instead)", "lower/upper on symbolic non-ASCII text (concrete pool only)", "replace with an empty search string", "panics on out-of-range positions are C03's subject (the harness recovers and judges returned values only)"},
 			Assumptions: append([]string{"strings.Index / bytealg primitives are modelled by naive loops per their documented contract"}, commonAssumptions...),
 		},
 		{
@@ -245,9 +253,11 @@ func allChecks() []Check {
 			Runs: []HarnessRun{
 				{Harness: "VP_C19_date", Quick: map[string]int{}, MustReach: []string{"C19/date/done"}, PanicLabel: "C19/date/no-panic", SampleEvery: 1},
 				{Harness: "VP_C19_fields", Quick: map[string]int{}, MustReach: []string{"C19/fields/done"}, PanicLabel: "C19/fields/no-panic", SampleEvery: 1},
+				{Harness: "VP_C19_pool", Quick: map[string]int{}, MustReach: []string{"C19/pool/done"}, PanicLabel: "C19/pool/no-panic", SampleEvery: 1},
 				{Harness: "VP_C19_zone", Quick: map[string]int{}, MustReach: []string{"C19/zone/done"}, PanicLabel: "C19/zone/no-panic", SampleEvery: 1},
 			},
-			Bounds:      map[string]string{"all": "package time is environment: Date, AddDate, Year..Weekday, Format, Now are uninterpreted functions of (instant, zone) / a non-decreasing symbolic clock; the solver decides, for all y in 1..9999, m in -50..60, d in -800..800, all shift triples, all instants from year 68 to 9892, three zones, the *wiring* of the 14 date builtins to those primitives (argument order, 1-based month, weekday, milliseconds, In vs UTC, local midnight, clock bracket); native replays of sampled models compare against the real time package and an independent days-from-civil computation"},
+			Bounds: map[string]string{"pool": "CONCRETE POOL (not symbolic, real time package): 30 formulas through parser and runner at calendar boundaries (year 1 and the zero instant as an ordinary value, leap days of 1900/2000/2023/2024, month 0 / 13 / 14 and day 0 / 30 / 32 carry, week days, day shifts of 1 and 200000 days in milliseconds) with hand-written expectations",
+				"all": "package time is environment: Date, AddDate, Year..Weekday, Format, Now are uninterpreted functions of (instant, zone) / a non-decreasing symbolic clock; the solver decides, for all y in 1..9999, m in -50..60, d in -800..800, all shift triples, all instants from year 68 to 9892, three zones, the *wiring* of the 14 date builtins to those primitives (argument order, 1-based month, weekday, milliseconds, In vs UTC, local midnight, clock bracket); native replays of sampled models compare against the real time package and an independent days-from-civil computation"},
 			Outside:     []string{"that Go's time package implements the proleptic Gregorian calendar and the zone rules (trusted; calendar arithmetic on symbolic years times out in z3, z3 5.1 and cvc5)", "daylight-saving zones (no zone database in the engine)"},
 			Assumptions: commonAssumptions,
 		},
@@ -317,6 +327,7 @@ func allChecks() []Check {
 			Runs: []HarnessRun{
 				{Harness: "VP_C15_linecol", Quick: map[string]int{"L": 4}, Thorough: map[string]int{"L": 5}, MustReach: []string{"C15/linecol/done"}},
 				{Harness: "VP_C15_binsearch", Quick: map[string]int{"N": 5}, Thorough: map[string]int{"N": 7}, MustReach: []string{"C15/binsearch/done"}},
+				{Harness: "VP_C15_errpool", Quick: map[string]int{}, MustReach: []string{"C15/errpool/done"}, PanicLabel: "C15/errpool/no-panic", SampleEvery: 1},
 				{Harness: "VP_C15_tokranges", Quick: map[string]int{"K": 3}, Thorough: map[string]int{"K": 4}, MustReach: []string{"C15/tokranges/accepted"}, PanicLabel: "C15/tokranges/no-panic"},
 				{Harness: "VP_C15_ranges", Quick: map[string]int{"L": 3}, Thorough: map[string]int{"L": 4}, MustReach: []string{"C15/ranges/accepted", "C15/errtext/diagnostic"}, PanicLabel: "C15/ranges/no-panic"},
 			},
